@@ -149,6 +149,26 @@ func (s *SSL) checkValidCertPEM(raw []byte) (*x509.Certificate, error) {
 	return x509crt, nil
 }
 
+// readCertificateFile returns the first certificate of a PEM
+// encoded file, which can also have private keys and other blocks.
+func (s *SSL) readCertificateFile(filename string) (*x509.Certificate, error) {
+	raw, err := os.ReadFile(filename)
+	if err != nil {
+		return nil, err
+	}
+	for len(raw) > 0 {
+		var block *pem.Block
+		block, raw = pem.Decode(raw)
+		if block == nil {
+			break
+		}
+		if block.Type == "CERTIFICATE" {
+			return x509.ParseCertificate(block.Bytes)
+		}
+	}
+	return nil, fmt.Errorf("file '%s' does not have a PEM formatted certificate", filename)
+}
+
 func (s *SSL) buildCertFromCrtAndKey(fileName string, crt, key, ca []byte) (*sslCert, error) {
 	x509crt, err := s.checkValidCertPEM(crt)
 	if err != nil {
